@@ -45,6 +45,8 @@ def product_peps(geometry, vectors) -> Peps:
 
     if isinstance(vectors, Tensor):
         vectors = {site: vectors.copy() for site in geometry.sites()}
+    else:
+        vectors = dict(vectors)  # do not modify the dict provided by the user
 
     for k, v in vectors.items():
         if v.ndim == 1 and not v.get_legs(axes=0).is_fused():
